@@ -330,7 +330,8 @@ def iterative_rejection_helper(
                     "the prior samples."
                 )
 
-    if max_prior_samples is None:
+    if max_prior_samples is None or max_prior_samples > n_total_samples:
+        # can't process more samples than the cache file contains
         max_prior_samples = n_total_samples
 
     # The "magic numbers" below control how fast the iterative batches grow
